@@ -111,10 +111,14 @@ def build(ctx):
     return exe, exe_fn, mod
 
 
-def signature(d):
-    """signature of a failing run for known-findings matching, computed from the failing input's own observables"""
-    last = d.get("rets", "").split(",")[-1].split(":")[0] if d.get("rets") else "-"
-    return "%s:%s:fault-in-%s:last-call-%s" % (d.get("wl"), d.get("status"), d.get("fkind"), last)
+def signatures(d, verdict):
+    """candidate signatures of a failing run for known-findings matching, computed from the failing input's own
+    observables: the verdict and every caller>callee pair of library functions that were on the stack when the first
+    injected fault hit (harness field where=, innermost first).  A recorded finding names ONE such pair, e.g. the
+    fault was below Hlength called from hdf_read_vars; any violation elsewhere has no matching pair."""
+    chain = [x for x in d.get("where", "-").split("<") if x and x != "-"]
+    chain.reverse()                                    # outermost first
+    return ["%s:%s>%s" % (verdict.lower(), a, b) for a, b in zip(chain, chain[1:])]
 
 
 def run(ctx):
@@ -184,10 +188,13 @@ def run(ctx):
                                    "all_api_calls_ok": d["allok"], "same_file": d["same"], "verdict": verdict}
                  if hit and len(ctx.coverage["samples"]) < 5 and (verdict != "Holds" or r.random() < 0.01) else None)
         if verdict != "Holds":
-            sig = signature(d)
-            if ctx.match_known(sig) is not None:
-                ctx.violation("known finding", "", found=True, signature=sig)
+            sigs = signatures(d, verdict)
+            known = [x for x in sigs if ctx.match_known(x) is not None]
+            if known:
+                ctx.violation("known finding", "", found=True, signature=known[0])
+                stats["known_finding_runs"] = stats.get("known_finding_runs", 0) + 1
                 continue
+            sig = "%s:%s:%s" % (verdict, d.get("wl"), ">".join(sigs[-1:]))
             if sig in seen_sig or nviol >= 3:
                 continue
             seen_sig.add(sig)
@@ -200,7 +207,7 @@ def run(ctx):
                    job,
                    "# library (R): " + l[:900],
                    "# specification (S): " + v,
-                   "# signature: " + sig]
+                   "# fault hit below: " + d.get("where", "-")]
             ctx.violation("%s [%s, first failing stdio call '%s' at index %s]" % (what, d["wl"], d["fkind"], d["k"]),
                           "\n".join(txt), found=True)
     # ---- function level: R vs M --------------------------------------------------------------------------
